@@ -42,11 +42,11 @@ checks.update({
          "The real attachment server runs on the simulated socket for all five dialects (incl. the length-prefixed HLJ data header); names and alarm IDs over arbitrary bytes incl. the marker 30316364, file contents containing the marker, permuted and re-sent data packets, control frames and data in one read, headers split across reads. A file may be reported complete (stage event or 0x9212 result 0) only if every byte of it had been delivered before, and its StreamBody must then equal the original bytes; each delivered control frame gets exactly one reply of the prescribed type echoing serial/id or naming the file; the session must not abort on well-formed input.",
          "files up to a few KiB (quick) / ~100 KiB (thorough); names without NUL and within the data header's 50 bytes"),
  "C16": ("exploration", "5/C16", "deterministic simulation of the 0x1212 -> 0x9212 conversation with withheld data packets; oracle = complement-of-intervals reference, 0x9212 parsed by the reference codec",
-         "Socket-driven half of the property: disjoint data packets with a plan-chosen subset withheld (gaps at start/middle/end, adjacent packets, one-byte gaps, up to ~300 packets), 0x1212, resupply in one or two rounds, 0x1212 again, under every segmentation; each 0x9212 must say complete with no ranges iff the packets delivered before that 0x1212 cover the file, else retransmit with exactly the maximal missing ranges ascending. The pure StatisticalMissSegments function is reached only through this path; its exhaustive enumeration is not this family's business and is not claimed.",
-         "partial claim (DESIGN.md section 0): the for-all-interval-sets quantifier of the pure function is sampled through the socket path only"),
+         "Socket-driven half of the property: disjoint data packets with a plan-chosen subset withheld (gaps at start/middle/end, adjacent packets, one-byte gaps, up to ~300 packets, files with 60-255 one-byte holes), 0x1212, resupply in one or two rounds, 0x1212 again, under every segmentation; each 0x9212 must say complete with no ranges iff the packets delivered before that 0x1212 cover the file, else retransmit with exactly the maximal missing ranges ascending. The pure StatisticalMissSegments function is reached only through this path; its exhaustive enumeration is not this family's business and is not claimed.",
+         "partial claim (DESIGN.md section 0): the for-all-interval-sets quantifier of the pure function is sampled through the socket path only. One known finding (known_findings.jsonl, DESIGN.md section 13): a 0x9212 with more ranges than fit one frame body (from about 121) is written with an overflowing length field; the check prints its KNOWN-FINDING line, still judges the ranges inside such a response, and exits 0"),
  "C19": ("exploration", "5/C19", "deterministic simulation with a simulated file system: default file handler on simfs, hostile announced names, oracle = every recorded effect's resolved path",
          "The attachment server's default FileEventer runs against simfs (in-memory tree with Linux path resolution), pre-populated with files and directories outside the terminals' directories; names with .., absolute paths, separators, NUL, names of existing outside files, several terminals per run, closes at arbitrary points; every create/write/mkdir the server performs is recorded with its resolved absolute path and must lie inside <cwd>/<phone>/ (or be the server's own file.log); outside files must be unchanged.",
-         "simfs has no symlinks; phone numbers are non-empty"),
+         "simfs has no symlinks"),
 })
 checks.update({
  "C10": ("fault_enumeration", "5/C10", "deterministic simulation of both servers: seeded hostile byte streams / adversarial frames / lifecycle faults next to well-behaved sessions, plus single-fault enumeration (FIN/RST of the hostile connection at every step of FIFO baselines); oracles = no panic anywhere, well-behaved sessions' own oracles, fresh connections served",
